@@ -203,6 +203,9 @@ def circuit_is_isomorphic(circuit1, circuit2):
     :return: True if 2 circuits is isomorphic, False otherwise.
     :rtype: Boolean
     """
+    # the control/target marks are written on the edges: work on copies so that the compared circuits stay untouched
+    circuit1 = circuit1.copy()
+    circuit2 = circuit2.copy()
     add_control_target_to_dag(circuit1)
     add_control_target_to_dag(circuit2)
 
@@ -215,8 +218,10 @@ def circuit_is_isomorphic(circuit1, circuit2):
         if type(op1) != type(op2) or op1.q_registers_type != op2.q_registers_type:
             return False
 
-        # For ControlledPairOperationBase, compare the control_type and target_type
-        if isinstance(op1, ControlledPairOperationBase):
+        # For (classically) controlled pair operations, compare the control_type and target_type
+        if isinstance(
+            op1, (ControlledPairOperationBase, ClassicalControlledPairOperationBase)
+        ):
             if (
                 op1.control_type != op2.control_type
                 or op1.target_type != op2.target_type
@@ -260,7 +265,9 @@ def _create_edge_control_target_attr(operation, reg_type, reg):
     :return: control_target attribute. Can be 'c', 't' or None
     :rtype: str or nothing
     """
-    if isinstance(operation, ControlledPairOperationBase):
+    if isinstance(
+        operation, (ControlledPairOperationBase, ClassicalControlledPairOperationBase)
+    ):
         if reg_type == operation.control_type and reg == operation.control:
             return "c"
         if reg_type == operation.target_type and reg == operation.target:
